@@ -484,7 +484,18 @@ impl<'tcx> Cx<'tcx> {
                         let tr = tr.instantiate_identity().skip_norm_wip();
                         let targs: Vec<String> = tr.args.iter().skip(1).filter_map(|a| a.as_type().map(|t| {
                             let (o, _) = adt_of(tcx, t);
-                            match (t.kind(), o) { (ty::Adt(..), Some(p)) => p, _ => ty_str(t) }
+                            match (t.kind(), o) {
+                                (ty::Adt(_, ga), Some(p)) => {
+                                    // keep concrete ADT arguments of the trait's type argument (`From<Term<Prd>>` and
+                                    // `From<Term<Cns>>` are different impls)
+                                    let inner: Vec<String> = ga.types().filter_map(|t2| match t2.kind() {
+                                        ty::Adt(d, _) => Some(tcx.item_name(d.did()).to_string()),
+                                        _ => None,
+                                    }).collect();
+                                    if inner.is_empty() { p } else { format!("{}<{}>", p, inner.join(",")) }
+                                }
+                                _ => ty_str(t),
+                            }
                         })).collect();
                         let trp = dpath(tcx, tr.def_id);
                         let trs = if targs.is_empty() { trp } else { format!("{}<{}>", trp, targs.join(",")) };
